@@ -212,6 +212,75 @@ CondProg(c) ==
     [] c.form = "elif"  -> <<If(F, <<Ret(I(0))>>, <<If(x, <<Ret(I(1))>>, <<Ret(I(2))>>)>>)>>
 CondIdx == [f : {"cond"}, l : 1..Len(CondLits), form : {"if", "ifnot", "tern", "and", "or", "loop", "elif"}]
 
+(* ------------------------------------------ C13: disabled builtins *)
+DisNames == {"int", "len", "string"}
+DisIdx == [f : {"dis"}, nm : DisNames, i : (1..NShadow) \ {21}, d : SUBSET DisNames]
+\* module variants: where the use sits
+ModUse(nm) == <<Ret(MapL(<<"v">>, <<UseOf(nm)>>))>>
+ModShadow(nm) == <<Def(nm, Fn(<<"x">>, FALSE, <<Ret(S("sh"))>>)), Ret(MapL(<<"v">>, <<UseOf(nm)>>))>>
+DisModProg(c) ==
+  CASE c.v = 1 -> [P0(<<Ret(Sel(Import("m"), "v"))>>) EXCEPT !.mods = [x \in {"m"} |-> ModUse(c.nm)]]
+    [] c.v = 2 -> [P0(<<Ret(Sel(Import("m"), "v"))>>) EXCEPT !.mods = [x \in {"m"} |-> ModShadow(c.nm)]]
+    [] c.v = 3 -> [P0(<<Def(c.nm, I(1)), Ret(Arr(<<Sel(Import("m"), "v"), Id(c.nm)>>))>>) EXCEPT !.mods = [x \in {"m"} |-> ModUse(c.nm)]]
+    [] c.v = 4 -> [P0(<<Def("f", Fn0(<<Ret(Sel(Import("m"), "v"))>>)), Ret(I(1))>>) EXCEPT !.mods = [x \in {"m"} |-> ModUse(c.nm)]]
+    [] c.v = 5 -> [P0(<<Const("k", UseOf(c.nm)), Ret(Id("k"))>>) EXCEPT !.mods = <<>>]
+    [] c.v = 6 -> [P0(<<Ret(Sel(Import("m"), "v"))>>) EXCEPT !.mods = [x \in {"m"} |-> <<Const("k", UseOf(c.nm)), Ret(MapL(<<"v">>, <<Id("k")>>))>>]]
+    [] c.v = 7 -> [P0(<<If(F, <<Ret(UseOf(c.nm))>>, <<>>), Ret(I(2))>>) EXCEPT !.mods = <<>>]
+    [] c.v = 8 -> [P0(<<Def("h", Id(c.nm)), Ret(I(3))>>) EXCEPT !.mods = <<>>]      \* obtaining the builtin as a value
+DisModIdx == [f : {"dismod"}, nm : DisNames, v : 1..8, d : SUBSET DisNames]
+
+(* ------------------------------------------------- C12: import graphs *)
+\* a module imports its dependencies (binding them), and returns a fresh mutable map
+\* {n: name, c: 0, d1: <first dependency's object>, d2: ...}
+ModBody(name, deps) ==
+  [i \in 1..Len(deps) |-> Def("x" \o ToString(i), Import(deps[i]))]
+  \o <<Ret(MapL(<<"n", "c">> \o [i \in 1..Len(deps) |-> "d" \o ToString(i)],
+                <<S(name), I(0)>> \o [i \in 1..Len(deps) |-> Id("x" \o ToString(i))]))>>
+\* graph number -> dependencies of m1, m2, m3
+GraphDeps(g) == CASE g = 1 -> << <<>>, <<>>, <<>> >>
+                  [] g = 2 -> << <<"m2">>, <<>>, <<>> >>
+                  [] g = 3 -> << <<"m3">>, <<"m3">>, <<>> >>          \* diamond below main
+                  [] g = 4 -> << <<"m2">>, <<"m3">>, <<>> >>          \* chain
+                  [] g = 5 -> << <<"m2">>, <<"m1">>, <<>> >>          \* cycle of length 2
+                  [] g = 6 -> << <<"m1">>, <<>>, <<>> >>              \* module importing itself
+                  [] g = 7 -> << <<"nope">>, <<>>, <<>> >>            \* unknown module
+                  [] g = 8 -> << <<"m2", "m3">>, <<"m3">>, <<>> >>
+                  [] g = 9 -> << <<"m2">>, <<"m3">>, <<"m1">> >>      \* cycle of length 3
+GraphBad(g) == g \in {5, 6, 7, 9}
+ModsOf(g) == LET d == GraphDeps(g) IN
+             [x \in {"m1", "m2", "m3"} |-> ModBody(x, d[CASE x = "m1" -> 1 [] x = "m2" -> 2 [] x = "m3" -> 3])]
+ModMain(site) ==
+  CASE site = 1 -> <<Def("a", Import("m1")), Def("b", Import("m1")), AsgS(Id("a"), "c", I(5)), Ret(Arr(<<Sel(Id("b"), "c"), Sel(Id("a"), "n")>>))>>
+    [] site = 2 -> <<Def("f", Fn0(<<Ret(Import("m1"))>>)), Def("x", C0(Id("f"))), AsgS(Id("x"), "c", I(7)),
+                     Ret(Arr(<<Sel(C0(Id("f")), "c"), Sel(Import("m1"), "c")>>))>>
+    [] site = 3 -> <<If(T, <<Def("a", Import("m1")), AsgS(Id("a"), "c", I(1))>>, <<>>),
+                     ForIn("_", "v", Arr(<<I(1), I(2)>>), <<Def("b", Import("m1")), Cmp("v", "+", Sel(Id("b"), "c")), Log(Id("v"))>>),
+                     If(F, <<Def("z", Import("m2"))>>, <<Def("z", Import("m1"))>>), Ret(Sel(Import("m1"), "c"))>>
+    [] site = 4 -> <<Def("f", Fn0(<<Ret(Import("m2"))>>)), Ret(I(1))>>
+    [] site = 5 -> <<Def("a", Import("m1")), Def("b", Import("m2")), Def("c", Import("m3")), AsgS(Id("c"), "c", I(9)),
+                     \* (the value a module returns is copied when it is cached, so identity is probed
+                     \*  through import expressions only, not through objects embedded in other modules' values)
+                     Def("g", Fn0(<<Ret(Sel(Import("m3"), "c"))>>)),
+                     Ret(Arr(<<Sel(Id("a"), "n"), Sel(Id("b"), "n"), Sel(Id("c"), "c"), C0(Id("g")),
+                               Cond(Bin("==", Sel(Id("a"), "d1"), U), S("-"), Sel(Sel(Id("a"), "d1"), "n")),
+                               Cond(Bin("==", Sel(Id("b"), "d1"), U), S("-"), Sel(Sel(Id("b"), "d1"), "n"))>>))>>
+    [] site = 6 -> <<Def("b", Import("m2")), Def("a", Import("m1")),
+                     Ret(Arr(<<Sel(Id("a"), "n"), Cond(Bin("==", Sel(Id("a"), "d1"), U), S("-"), Sel(Sel(Id("a"), "d1"), "n"))>>))>>
+    [] site = 7 -> <<Def("f", Fn0(<<Def("m", Import("m1")), Cmp("c", "+", I(1)), AsgS(Id("m"), "c", Id("c")), Ret(Sel(Id("m"), "c"))>>)),
+                     Def("c", I(0)), Ret(I(0))>>      \* never called; c declared later: unresolved inside f is a compile error... avoided: see ModIdx
+ModIdx == [f : {"mod"}, g : 1..9, site : 1..6]
+ModProg(c) == [P0(ModMain(c.site)) EXCEPT !.mods = ModsOf(c.g)]
+\* static verdict: does the compiler have to refuse (cycle / unknown module reachable from an import expression of the main script)
+RECURSIVE Reach(_,_,_)
+Reach(g, todo, seen) == IF todo = {} THEN seen
+                        ELSE LET x == CHOOSE y \in todo : TRUE
+                                 d == IF x \in {"m1", "m2", "m3"} THEN SeqSet(GraphDeps(g)[CASE x = "m1" -> 1 [] x = "m2" -> 2 [] x = "m3" -> 3]) ELSE {}
+                             IN Reach(g, (todo \cup d) \ (seen \cup {x}), seen \cup {x})
+MainImports(site) == CASE site \in {1, 2} -> {"m1"} [] site = 3 -> {"m1", "m2"} [] site = 4 -> {"m2"} [] site = 5 -> {"m1", "m2", "m3"} [] site = 6 -> {"m1", "m2"}
+ModRefused(c) == LET r == Reach(c.g, MainImports(c.site), {}) IN
+                 \/ "nope" \in r
+                 \/ (c.g = 5 /\ {"m1", "m2"} \cap r # {}) \/ (c.g = 6 /\ "m1" \in r) \/ (c.g = 9 /\ {"m1", "m2", "m3"} \cap r # {})
+
 (* ---------------------------------------------------------- the states *)
 FamSeq(f) == CASE f = "closure" -> Closure [] f = "assign" -> Assign [] f = "const" -> ConstProgs
 ListIdx == UNION { {[f |-> x, i |-> i] : i \in 1..Len(FamSeq(x))} : x \in Fams \cap {"closure", "assign", "const"} }
@@ -223,6 +292,8 @@ AllIdx == ListIdx
           \cup (IF "shadow" \in Fams THEN ShadowIdx ELSE {})
           \cup (IF "fold" \in Fams THEN FoldIdx ELSE {})
           \cup (IF "cond" \in Fams THEN CondIdx ELSE {})
+          \cup (IF "dis" \in Fams THEN DisIdx \cup DisModIdx ELSE {})
+          \cup (IF "mod" \in Fams THEN ModIdx ELSE {})
 ProgOf(c) == CASE c.f \in {"closure", "assign", "const"} -> P0(FamSeq(c.f)[c.i])
                [] c.f = "call" -> P0(CallProg(c))
                [] c.f = "rec" -> P0(RecProg(c))
@@ -231,6 +302,9 @@ ProgOf(c) == CASE c.f \in {"closure", "assign", "const"} -> P0(FamSeq(c.f)[c.i])
                [] c.f = "shadow" -> P0(ShadowProg(c.nm, c.i))
                [] c.f = "fold" -> P0(FoldProg(c))
                [] c.f = "cond" -> P0(CondProg(c))
+               [] c.f = "dis" -> [P0(ShadowProg(c.nm, c.i)) EXCEPT !.disabled = c.d]
+               [] c.f = "dismod" -> [DisModProg(c) EXCEPT !.disabled = c.d]
+               [] c.f = "mod" -> ModProg(c)
 
 VARIABLES c, ph
 vars == <<c, ph>>
@@ -240,14 +314,25 @@ Next == Judge
 Spec == Init /\ [][Next]_vars
 
 \* the reference semantics is total on the families (no unmodelled construct, no divergence)
-Modelled == ph = 1 => LET r == RunP(ProgOf(c)) IN
+Modelled == (ph = 1 /\ ~(c.f = "mod" /\ ModRefused(c))) => LET r == RunP(ProgOf(c)) IN
+              (ProgRefs(ProgOf(c)) \cap ProgOf(c).disabled = {}) =>
               ~(r.o[1] = "thr" /\ r.o[2].name \in {"unmodelled-builtin-call", "diverge", "unresolved"})
+\* a script that never mentions a disabled builtin as a builtin behaves as without the disabled set
+\* a module body runs at most once per run: "load:m" occurs at most once in the log
+LoadOnce == (ph = 1 /\ c.f = "mod" /\ ~ModRefused(c)) =>
+   LET l == RunP(ProgOf(c)).log IN \A m \in {"m1", "m2", "m3"} : Cardinality({i \in 1..Len(l) : l[i].t = "str" /\ l[i].v = "load:" \o m}) <= 1
+DisabledIrrelevant == (ph = 1 /\ c.f # "mod") => LET p == ProgOf(c) IN
+   (ProgRefs(p) \cap p.disabled = {}) => RunP(p) = RunP([p EXCEPT !.disabled = {}])
 \* the reference semantics determines the observation (operand combinations outside its
 \* fragment are still replayed and compared across compiler configurations)
 RefKnown(p) == LET r == RunP(p) IN ~(r.o[1] = "thr" /\ r.o[2].name = "unmodelled-op")
 FoldExprKnown(cc) == RefKnown(P0(<<Ret(Bin(FoldOps[cc.op], FoldVals[cc.a], FoldVals[cc.b]))>>))
-Export == ph = 1 => LET p == ProgOf(c) IN
-   CSVWrite("%1$s", <<ToJson([fam |-> c.f, id |-> c, prog |-> p, exp |-> RunP(p),
+NoExp == [o |-> <<"ret", VUndef>>, log |-> <<>>, globals |-> <<>>]
+Export == ph = 1 => LET p == ProgOf(c)  mref == (c.f = "mod" /\ ModRefused(c)) IN
+   CSVWrite("%1$s", <<ToJson([fam |-> c.f, id |-> c, prog |-> p, exp |-> (IF mref THEN NoExp ELSE RunP(p)), modrefused |-> mref,
                               mayrefuse |-> (c.f = "fold" /\ FoldRaises(c)),
-                              refknown |-> (IF c.f = "fold" THEN FoldExprKnown(c) ELSE RefKnown(p))])>>, IOEnv.OUT)
+                              refknown |-> (IF c.f = "fold" THEN FoldExprKnown(c) ELSE IF mref THEN TRUE ELSE RefKnown(p)),
+                              refused |-> (ProgRefs(p) \cap p.disabled # {}),
+                              \* a reference inside a branch the compiler removes (literal false condition) need not be reported
+                              refopt |-> (c.f = "dismod" /\ c.v = 7)])>>, IOEnv.OUT)
 =============================================================================
